@@ -202,3 +202,307 @@ def r_comment_first(cx):
     cx.ob("R-COMMENT-FIRST", "scan", sites > 0 and n == 0,
           "%d call(s) handling the comment character `#`, none by a last-occurrence primitive" % sites, "src/")
     cx.count("R-COMMENT-FIRST", "comment_sites", sites)
+
+
+# ---------------------------------------------------------------------------------------------------------------------
+# R-K0-LINEAR (C13, C05, C14, C01): k_0 scales the unshifted plane coordinates, and nothing else
+
+K0_EXEMPT = {"omerc": "kc enters through the constants A and B of the oblique formulas, not as a final scale factor"}
+_ARITH = ("Add", "Sub", "Mul", "Div")
+
+
+def _k0_atom(symtab, inputs=None):
+    inputs = inputs or {}
+
+    def atom(t):
+        if t in inputs:
+            return inputs[t]
+        if _fnum(t) is not None:
+            return None
+        if t[0] == "cast" or (t[0] == "un" and t[1] == "Neg") or (t[0] == "bin" and t[1] in _ARITH):
+            return None
+        if t[0] == "call" and isinstance(t[1], str):
+            tail = t[1].rsplit("::", 1)[-1]
+            if t[1].endswith("ParsedParameters::k"):
+                return "K"
+            if t[1].endswith("ParsedParameters::x"):
+                return "X0"
+            if t[1].endswith("ParsedParameters::y"):
+                return "Y0"
+            if tail in ("recip", "powi", "mul_add"):
+                return None
+        key = repr(t)
+        if key not in symtab:
+            symtab[key] = ("s%d" % len(symtab), t)
+        return symtab[key][0]
+    return atom
+
+
+def _mentions_k(t):
+    hit = []
+    mir.walk(t, lambda x: (hit.append(1) if x[0] == "call" and isinstance(x[1], str) and
+                           x[1].endswith("ParsedParameters::k") else None) or True)
+    return bool(hit)
+
+
+def _has_sym(p, sym):
+    return any(sym in dict(k) for k in p.t)
+
+
+def _indep(num, den, sym):
+    """the rational function num/den does not depend on sym (compared with a copy in a fresh symbol)"""
+    from poly import Poly, subst
+    fresh = sym + "'"
+    n2, d2 = subst(num, {sym: Poly.sym(fresh)}), subst(den, {sym: Poly.sym(fresh)})
+    return num * d2 == n2 * den
+
+
+def _children(t):
+    for ch in t[1:]:
+        if isinstance(ch, tuple):
+            if ch and isinstance(ch[0], str):
+                yield ch
+            else:
+                for c2 in ch:
+                    if isinstance(c2, tuple) and c2 and isinstance(c2[0], str):
+                        yield c2
+
+
+@rule("R-K0-LINEAR", ["C13", "C05", "C14", "C01"])
+def r_k0_linear(cx):
+    """For the projections that read k_0 in their forward / inverse functions (merc, lcc, btmerc, butm): read as exact
+    rational functions of k_0, x_0 / y_0 and opaque sub-terms, (a) the forward easting and northing are
+    `offset + k_0 * G` with G free of k_0 and offset exactly x_0 resp. y_0 - nothing but the false origin escapes the
+    scaling (a meridian arc of lat_0 subtracted outside the bracket does); (b) in the inverse every arithmetic expression
+    of the input easting / northing depends on it only through (input - offset) / k_0 - substituting
+    input = k_0 u + offset leaves no k_0 and no offset behind (an origin arc added inside the division does)."""
+    from poly import Poly, subst
+    from rules.projections import written_xy_terms, input_xy_terms, PLANE
+    import pertuple
+    reg = cx.registry()
+    n = 0
+    done = set()
+    for cpath, c in sorted(reg.ctors.items()):
+        names = [x for x in c.names if x in PLANE]
+        if not names or not c.fwd or not c.inv or names[0] in K0_EXEMPT:
+            continue
+        f = cx.f.fn(c.fwd)
+        if (c.fwd, c.inv) in done:
+            continue
+        if not any((f.callee(t) or "").endswith("ParsedParameters::k") for bb, t in f.calls()):
+            continue
+        done.add((c.fwd, c.inv))
+        for pt in pertuple.per_tuple_loops(f):
+            for wn, (bb, e, nn) in enumerate(written_xy_terms(f, pt)):
+                for axis, term, off in (("x", e, "X0"), ("y", nn, "Y0")):
+                    symtab = {}
+                    r = _rf(term, _k0_atom(symtab))
+                    n += 1
+                    why = None
+                    if r is None:
+                        why = "is not an arithmetic expression the analysis can read"
+                    else:
+                        num, den = r
+                        if [1 for s, (nm, tt) in symtab.items() if _mentions_k(tt)]:
+                            why = "uses k_0 inside a non-linear function"
+                        elif _has_sym(den, "K") or max(dict(k).get("K", 0) for k in num.t) > 1:
+                            why = "is not linear in k_0"
+                        elif not (subst(num, {"K": Poly.const(0)}) == Poly.sym(off) * den):
+                            why = "has a part other than %s_0 that is not multiplied by k_0" % axis
+                    cx.ob("R-K0-LINEAR", "%s/fwd/write%d/%s" % (names[0], wn, axis), why is None,
+                          "%s forward: %s = %s_0 + k_0 * G" % (names[0], "easting" if axis == "x" else "northing", axis)
+                          if why is None else
+                          "%s forward: the %s %s: k_0 no longer scales the unshifted coordinate as a whole (e.g. the meridian "
+                          "arc of lat_0 escapes the scaling: off by (1 - k_0) * arc for lat_0 != 0, k_0 != 1)" % (
+                              names[0], "easting" if axis == "x" else "northing", why), cx.where(f.term(bb)["span"]))
+        g = cx.f.fn(c.inv)
+        for pt in pertuple.per_tuple_loops(g):
+            xs, ys = input_xy_terms(g, pt)
+            inputs = {}
+            for t in xs:
+                inputs[t] = "XIN"
+            for t in ys:
+                inputs[t] = "YIN"
+            for wn, (bb, e, nn) in enumerate(written_xy_terms(g, pt)):
+                found, seen = [], set()
+
+                def collect(t, depth=0):
+                    t = mir.strip_refs(t)
+                    if depth > 40 or not isinstance(t, tuple):
+                        return
+                    try:
+                        if t in seen:
+                            return
+                        seen.add(t)
+                    except TypeError:
+                        return
+                    symtab = {}
+                    r = _rf(t, _k0_atom(symtab, inputs)) if t not in inputs else None
+                    if r is not None and any(_has_sym(p, s) for p in r for s in ("XIN", "YIN")):
+                        found.append((t, r))
+                        for s, (nm, tt) in symtab.items():
+                            for ch in _children(tt):
+                                collect(ch, depth + 1)
+                        return
+                    for ch in _children(t):
+                        collect(ch, depth + 1)
+                collect(e)
+                collect(nn)
+                bad = []
+                uses = 0
+                for t, (num, den) in found:
+                    for IN, OFF in (("XIN", "X0"), ("YIN", "Y0")):
+                        if not (_has_sym(num, IN) or _has_sym(den, IN)):
+                            continue
+                        uses += 1
+                        m = {IN: Poly.sym("K") * Poly.sym("u") + Poly.sym(OFF)}
+                        n2, d2 = subst(num, m), subst(den, m)
+                        if not (_indep(n2, d2, "K") and _indep(n2, d2, OFF)):
+                            bad.append((IN, t))
+                if uses == 0:
+                    continue        # a special case that writes constants (the cone apex of lcc)
+                n += 1
+                ok = not bad
+                cx.ob("R-K0-LINEAR", "%s/inv/write%d" % (names[0], wn), ok,
+                      "%s inverse: the input enters only as (input - offset) / k_0 (%d expressions)" % (names[0], uses) if ok else
+                      ("%s inverse: the input %s is combined with something else before the division by k_0 (or the false "
+                       "origin is not removed first): %s" % (names[0], "easting" if bad[0][0] == "XIN" else "northing",
+                                                             mir.show(bad[0][1], maxd=3)[:90]) if bad else ""), cx.where(g.term(bb)["span"]))
+    cx.count("R-K0-LINEAR", "judged", n)
+
+
+@rule("R-TABLE-LOOKUP-EXACT", ["C06", "C14"])
+def r_table_lookup_exact(cx):
+    """A named ellipsoid is the table entry whose name *equals* the name asked for. The search predicates of
+    Ellipsoid::named and TriaxialEllipsoid::named (closures handed to position / find over ELLIPSOID_LIST) are equality
+    comparisons - not prefix, suffix, substring or case-folded matches, which make `clrk80ign` resolve to the earlier
+    entry `clrk80` - and the two sibling constructors use the same predicate."""
+    import elems as E
+    kinds = {}
+    n = 0
+    for fn in ("ellipsoid::biaxial::Ellipsoid::named", "ellipsoid::triaxial::TriaxialEllipsoid::named"):
+        if not cx.f.has_fn(fn):
+            cx.ob("R-TABLE-LOOKUP-EXACT", fn, False, "anchor-missing: %s" % fn)
+            continue
+        f = cx.f.fn(fn)
+        found = False
+        for bb, t in f.calls():
+            tail = (f.callee(t) or "").rsplit("::", 1)[-1]
+            if tail not in ("position", "find", "any", "find_map", "filter"):
+                continue
+            for a in f.arg_terms(bb):
+                if a[0] == "agg" and isinstance(a[1], tuple) and a[1][0] == "closure" and cx.f.has_fn(a[1][1]):
+                    g = cx.f.fn(a[1][1])
+                    rt = E.return_term(g)
+                    rt = mir.strip_refs(rt) if rt is not None else ("unknown",)
+                    found = True
+                    n += 1
+                    kind = None
+                    if rt[0] == "call" and isinstance(rt[1], str):
+                        kind = rt[1].rsplit("::", 1)[-1]
+                    elif rt[0] == "bin":
+                        kind = rt[1]
+                    ok = kind in ("eq", "Eq")
+                    kinds[fn] = kind
+                    cx.ob("R-TABLE-LOOKUP-EXACT", fn, ok,
+                          "%s looks the name up by equality" % fn if ok else
+                          "%s matches table names by `%s`, not by equality: a name that merely starts with (contains, ...) "
+                          "an earlier entry resolves to that entry (`clrk80ign` becomes `clrk80`)" % (fn, kind),
+                          cx.where(t["span"]))
+        if not found:
+            cx.ob("R-TABLE-LOOKUP-EXACT", fn, False, "anchor-missing: no search predicate over the ellipsoid table in %s" % fn,
+                  cx.where(f.d["span"]))
+    cx.count("R-TABLE-LOOKUP-EXACT", "predicates", n)
+
+
+@rule("R-LIMIT-ON-PLANE", ["C10"])
+def r_limit_on_plane(cx):
+    """Where the forward and the inverse function of a projection guard their domain with the same constant (the
+    transverse Mercator strip: 2.623395162778 in units of the normalised easting), both test the same quantity of the
+    plane: the forward tests the very value that, scaled, becomes the written easting / northing (it is an arithmetic
+    factor of the written coordinate, not an input to a trigonometric function on the way there), and the inverse tests
+    an arithmetic function of the input coordinate. A forward test moved up to the raw longitude difference lets
+    low-latitude tuples 82 to 150 degrees from the central meridian through with absurd but finite eastings."""
+    from rules.projections import written_xy_terms, input_xy_terms, _num, PLANE
+    from rules.loops import classify_write
+    import pertuple
+
+    def guards_with_terms(f, pt):
+        out = []
+        nan_blocks = {bb for bb, m in pt.writes if classify_write(f, bb, m) == "nan"}
+        for bb in sorted(pt.lp.body):
+            sw = f.term(bb)
+            if sw["k"] != "switch" or bb == pt.header:
+                continue
+            c = f.operand(sw["discr"], f.end_point(bb))
+            if c[0] != "bin" or c[1] not in ("Gt", "Ge", "Lt", "Le"):
+                continue
+            hits = False
+            for s_ in f.succ[bb]:
+                reach = f.reach_from([s_], avoid=[pt.header] + [b for b, m in pt.writes if b not in nan_blocks])
+                if reach & nan_blocks:
+                    hits = True
+            if not hits:
+                continue
+            for x, k in ((c[2], c[3]), (c[3], c[2])):
+                kv = _num(k)
+                if kv is None:
+                    continue
+                xs = mir.strip_refs(x)
+                if xs[0] == "call" and isinstance(xs[1], str) and xs[1].split("::")[-1] == "abs":
+                    xs = mir.strip_refs(xs[2][0])
+                out.append((abs(kv), xs, sw["span"]))
+        return out
+    reg = cx.registry()
+    n = 0
+    done = set()
+    for cpath, c in sorted(reg.ctors.items()):
+        if not c.fwd or not c.inv or c.fwd == c.inv or (c.fwd, c.inv) in done:
+            continue
+        if not [x for x in c.names if x in PLANE]:
+            continue        # plane projections only
+        done.add((c.fwd, c.inv))
+        f, g = cx.f.fn(c.fwd), cx.f.fn(c.inv)
+        gf = [(k, q, sp, pt) for pt in pertuple.per_tuple_loops(f) for (k, q, sp) in guards_with_terms(f, pt)]
+        gi = [(k, q, sp, pt) for pt in pertuple.per_tuple_loops(g) for (k, q, sp) in guards_with_terms(g, pt)]
+        for (k, q, sp, pt) in gf:
+            if not any(k2 == k for (k2, _, _, _) in gi) or k == 0:
+                continue
+            n += 1
+            axes = []
+            for bb, e, nn in written_xy_terms(f, pt):
+                for axis, term in (("x", e), ("y", nn)):
+                    symtab = {}
+                    base = _k0_atom(symtab)
+
+                    def atom(t, base=base, q=q):
+                        if mir.strip_refs(t) == q:
+                            return "Q"
+                        return base(t)
+                    r = _rf(term, atom)
+                    if r is not None and (_has_sym(r[0], "Q") or _has_sym(r[1], "Q")):
+                        axes.append(axis)
+            ok = bool(axes)
+            cx.ob("R-LIMIT-ON-PLANE", "%s/fwd/limit=%s" % (c.names[0], float(k)), ok,
+                  "%s forward tests the limit %s on the value that is scaled into the written %s" % (
+                      c.names[0], float(k), "easting" if "x" in axes else "northing") if ok else
+                  "%s forward compares %s with the domain limit %s, which the inverse applies to the normalised plane "
+                  "coordinate - but the tested value is not the one that is scaled into the written coordinate: the two "
+                  "directions guard different domains" % (c.names[0], mir.show(q, maxd=2)[:50], float(k)), cx.where(sp))
+        for (k, q, sp, pt) in gi:
+            if not any(k2 == k for (k2, _, _, _) in gf) or k == 0:
+                continue
+            n += 1
+            xs, ys = input_xy_terms(g, pt)
+            inputs = {}
+            for t in xs:
+                inputs[t] = "XIN"
+            for t in ys:
+                inputs[t] = "YIN"
+            r = _rf(q, _k0_atom({}, inputs))
+            ok = r is not None and any(_has_sym(p, s_) for p in r for s_ in ("XIN", "YIN"))
+            cx.ob("R-LIMIT-ON-PLANE", "%s/inv/limit=%s" % (c.names[0], float(k)), ok,
+                  "%s inverse tests the limit %s on an arithmetic function of the input coordinate" % (c.names[0], float(k))
+                  if ok else "%s inverse: the value compared with the domain limit %s is not an arithmetic function of the "
+                  "input easting / northing" % (c.names[0], float(k)), cx.where(sp))
+    cx.count("R-LIMIT-ON-PLANE", "paired_limits", n)
